@@ -84,6 +84,7 @@ func h64(s string) uint64 {
 // "random", so 0 is remapped.
 func Check(t *testing.T, quickN, thoroughN int, prop func(*rapid.T)) {
 	t.Helper()
+	CurT = t
 	if os.Getenv("VERIF_REPLAY") != "" {
 		t.Skip("replay mode")
 	}
@@ -335,6 +336,26 @@ func trimStack(b []byte) string {
 	return strings.Join(lines, "\n")
 }
 
+// CurT is the *testing.T of the running harness test (needed by helpers that
+// must start a testing/synctest bubble outside rapid, e.g. replays).
+var CurT *testing.T
+
+// Inflight records the case about to be executed in $VERIF_RUN_DIR/inflight.json, so
+// that a crash of the whole process (a panic in a goroutine of the code under
+// test) still leaves a replayable case behind.
+func Inflight(property, check string, c any) {
+	dir := os.Getenv("VERIF_RUN_DIR")
+	if dir == "" {
+		return
+	}
+	b, err := json.Marshal(c)
+	if err != nil {
+		return
+	}
+	out, _ := json.Marshal(replayFile{Property: property, Check: check, Message: "process crashed while executing this case", Case: b})
+	_ = os.WriteFile(filepath.Join(dir, "inflight.json"), out, 0o644)
+}
+
 var (
 	replayers = map[string]func(json.RawMessage) error{}
 	replaying bool
@@ -382,6 +403,7 @@ func RunReplayFile(path string) (handled bool, err error) {
 // ReplayTest is the body of TestVerifReplay in every harness package: it
 // re-executes $VERIF_REPLAY and reports the outcome on stdout.
 func ReplayTest(t *testing.T) {
+	CurT = t
 	path := os.Getenv("VERIF_REPLAY")
 	if path == "" {
 		t.Skip("no VERIF_REPLAY")
@@ -406,6 +428,7 @@ func ReplayTest(t *testing.T) {
 // witnesses of repaired defects and every failure an earlier campaign saved. A
 // failing file is a violation whose replay is the file itself.
 func Regress(t *testing.T, property string) {
+	CurT = t
 	if os.Getenv("VERIF_REPLAY") != "" {
 		t.Skip("replay mode")
 	}
